@@ -141,8 +141,17 @@ func checkC07(r *core.Run) {
 			},
 			AssignTags: func(pkg *packages.Package, as *ast.AssignStmt) []flow.Tag {
 				if len(as.Lhs) == 1 && len(as.Rhs) == 1 && isObj(pkg.TypesInfo, as.Lhs[0], ctxParam) {
-					if c, ok := as.Rhs[0].(*ast.CallExpr); ok && core.IsPkgFunc(core.Callee(pkg.TypesInfo, c), pTM, "InitSeataContext") {
-						return []flow.Tag{"-setxid", "-mutate", "rebind"}
+					if c, ok := as.Rhs[0].(*ast.CallExpr); ok {
+						callee := core.Callee(pkg.TypesInfo, c)
+						if core.IsPkgFunc(callee, pTM, "InitSeataContext") {
+							return []flow.Tag{"-setxid", "-mutate", "rebind"}
+						}
+						// a helper that derives the scope's context: verified on its own (below) to answer, on
+						// every return, a fresh context that carries the xid when its argument holds a transaction
+						if h := w.Info(callee); h != nil && h.Pkg.PkgPath == pTM && len(c.Args) == 1 && isObj(pkg.TypesInfo, c.Args[0], ctxParam) && scopeContextHelper(w, h) {
+							r.Fn(h)
+							return []flow.Tag{"-mutate", "rebind", "setxid"}
+						}
 					}
 				}
 				return nil
@@ -153,9 +162,7 @@ func checkC07(r *core.Run) {
 			if !inSet("beginstep", cp.Tags...) {
 				continue
 			}
-			if cp.Before.Has("true:isglobal") {
-				n++
-			}
+			n++
 			r.Sites++
 			key := core.ShortKey(with.Obj) + " nested scope (context already carries a transaction) -> " + core.ShortKey(cp.Callee)
 			// every path to the begin step either knows the incoming context carries no transaction, or has
@@ -166,7 +173,7 @@ func checkC07(r *core.Run) {
 				"the nested scope works on a fresh context carrying the same xid", "a nested scope mutates the caller's shared ContextVariable (no fresh seata context carrying the xid before begin): the inner scope overwrites the outer scope's role/xid/name, so the outer launcher skips its own second phase or ends the wrong transaction")
 		}
 		if n == 0 {
-			r.Bad("C07.isolation", core.ShortKey(with.Obj)+" nested scope path", w.Pos(with.Decl.Pos()), "no begin step found on the path where the incoming context already carries a transaction")
+			r.Bad("C07.isolation", core.ShortKey(with.Obj)+" nested scope path", w.Pos(with.Decl.Pos()), "no begin step found in the scope function")
 		}
 		// no mutator on the caller's context before the rebind on the nested path
 		for _, ap := range res.Assigns {
@@ -686,4 +693,61 @@ func c07FreshInit(r *core.Run, rule string) {
 	if n == 0 {
 		r.Undecided(rule, core.ShortKey(f.Obj)+" returns", w.Pos(f.Decl.Pos()), "no return found")
 	}
+}
+
+// scopeContextHelper: h(parent) returns, on every path, a context freshly made by tm.InitSeataContext(parent) and,
+// on the paths where parent holds a transaction (or where that is unknown), SetXID(fresh, GetXID(parent)) was applied.
+func scopeContextHelper(w *core.World, h *core.FuncInfo) bool {
+	ps := paramObjs(h)
+	if len(ps) != 1 || h.Decl.Body == nil {
+		return false
+	}
+	parent := ps[0]
+	info := h.Pkg.TypesInfo
+	isInit := func(e ast.Expr) bool {
+		c, ok := ast.Unparen(e).(*ast.CallExpr)
+		return ok && core.IsPkgFunc(core.Callee(info, c), pTM, "InitSeataContext") && len(c.Args) == 1 && isObj(info, c.Args[0], parent)
+	}
+	fresh := map[types.Object]bool{}
+	ast.Inspect(h.Decl.Body, func(n ast.Node) bool {
+		if as, ok := n.(*ast.AssignStmt); ok && len(as.Lhs) == 1 && len(as.Rhs) == 1 && isInit(as.Rhs[0]) {
+			if o := core.ObjOf(info, as.Lhs[0]); o != nil && o != parent {
+				fresh[o] = true
+			}
+		}
+		return true
+	})
+	sp := &flow.Spec{W: w, Depth: 0, Inline: -1, Split: []flow.Tag{"true:isglobal", "false:isglobal"},
+		Classify: func(pkg *packages.Package, call *ast.CallExpr, callee *types.Func) []flow.Tag {
+			switch {
+			case core.IsPkgFunc(callee, pTM, "IsGlobalTx") && len(call.Args) == 1 && isObj(pkg.TypesInfo, call.Args[0], parent):
+				return []flow.Tag{"isglobal"}
+			case core.IsPkgFunc(callee, pTM, "SetXID") && len(call.Args) == 2:
+				if o := core.ObjOf(pkg.TypesInfo, call.Args[0]); o != nil && fresh[o] && strings.Contains(origin(h, call.Args[1], 4), "pkg/tm.GetXID(param:"+parent.Name()+")") {
+					return []flow.Tag{"setxid"}
+				}
+			}
+			return nil
+		}}
+	res := sp.Analyze(h)
+	if len(res.Exits) == 0 {
+		return false
+	}
+	for _, ex := range res.Exits {
+		if len(ex.Results) != 1 {
+			return false
+		}
+		e := ex.Results[0]
+		isFresh := isInit(e)
+		if o := core.ObjOf(info, e); o != nil && fresh[o] {
+			isFresh = true
+		}
+		if !isFresh {
+			return false
+		}
+		if !(ex.St.Has("false:isglobal") || ex.St.Has("setxid")) {
+			return false
+		}
+	}
+	return true
 }
